@@ -279,3 +279,51 @@ def run(ctx, rep):
 
     # ------------------------------------------------------------------ R03.8
     K.share(ctx, rep, "c04", lambda o: o.rule in ("R04.1", "R04.2", "R04.3", "R04.4"), "R03.8", floor=20)
+    _weak_cache_model(ctx, rep)
+
+
+def _weak_cache_model(ctx, rep):
+    """R03.9: the proxy cache's membership test, lookup and get() agree with each other for live, dead and missing entries.
+    _unbox relies on `key in cache` implying that `cache[key]` returns a live proxy: the cyclic collector clears weak references
+    before it runs their callbacks, so an entry whose referent is already dead can still be in the table."""
+    from .. import miniinterp as MI
+    rep.rule("R03.9", "the proxy cache answers consistently: membership <=> a live referent; dead and missing entries look the same")
+    W = "rpyc.lib.colls.WeakValueDict"
+    c = ctx.cls(W)
+    meths = {n: m.node for n, m in c.methods.items()}
+    for n_ in ("__contains__", "__getitem__", "get"):
+        if n_ not in c.methods:
+            raise AnalysisError("WeakValueDict.%s not found" % n_)
+        rep.analysed(c.methods[n_])
+
+    class _Ref:
+        mi_native = True
+
+        def __init__(self, obj):
+            self.obj = obj
+
+        def __call__(self):
+            return self.obj
+    bad = []
+    try:
+        for label, table, key, alive in (("live entry", {"k": _Ref("PROXY")}, "k", True), ("dead entry (referent collected, callback not "
+                                         "yet run)", {"k": _Ref(None)}, "k", False), ("missing key", {"j": _Ref("OTHER")}, "k", False)):
+            res = {}
+            for op, args in (("__contains__", [key]), ("__getitem__", [key]), ("get", [key, "DEFAULT"]), ("get", [key])):
+                st = {"_dict": dict(table)}
+                try:
+                    res[op + str(len(args))] = MI.call_method(meths[op], st, args, {"__methods__": meths, "__max_iter__": 50})
+                except MI.Raised as r_:
+                    res[op + str(len(args))] = "raises " + r_.name
+            want = {"__contains__1": True, "__getitem__1": "PROXY", "get2": "PROXY", "get1": "PROXY"} if alive else \
+                   {"__contains__1": False, "__getitem__1": "raises KeyError", "get2": "DEFAULT", "get1": None}
+            if res != want:
+                bad.append("%s: `in` -> %r, [] -> %r, get(k, d) -> %r, get(k) -> %r" % (
+                    label, res["__contains__1"], res["__getitem__1"], res["get2"], res["get1"]))
+    except AnalysisError as e_:
+        rep.undecided("R03.9", "WeakValueDict model", str(e_))
+        return
+    rep.ob("R03.9", "WeakValueDict: membership, lookup and get() agree for live, dead and missing entries", not bad,
+           "3 entry states x 4 operations" if not bad else
+           "; ".join(bad) + " - _unbox takes its cache-hit branch on `in` and then fails in the lookup (or hands out a dead entry): "
+           "the reference does not arrive as a proxy", c.methods["__contains__"].loc, kind="table")
